@@ -342,7 +342,8 @@ class PatternBase:
             _as_func = '__as_time'
             _as_func_args = f'v1, cls'
             name_to_func[_as_func] = as_time_v1
-            end_part = '.timetz()' if has_tz else '.time()'
+            # Note: `.timetz()` keeps an offset parsed by a `%z` directive
+            end_part = '.timetz()'
 
         tp.ensure_in_locals(extras, **name_to_func)
 
@@ -361,7 +362,7 @@ class PatternBase:
                 # Try to parse with `datetime.strptime` first
                 with fn_gen.try_():
                     if is_subclass_time:
-                        tz_arg = '__tz, ' if has_tz else ''
+                        tz_arg = '__tz, ' if has_tz else '__dt.tzinfo, '
 
                         fn_gen.add_line(f'__dt = {_strptime}(v1, {p!r})')
                         fn_gen.add_line('return cls('
@@ -400,7 +401,7 @@ class PatternBase:
                                             '__dt.day)')
                         elif is_subclass_time:
                             fn_gen.add_line(f'__dt = {_strptime}(v1, {p!r})')
-                            tz_arg = '__tz, ' if has_tz else ''
+                            tz_arg = '__tz, ' if has_tz else '__dt.tzinfo, '
 
                             fn_gen.add_line('return cls('
                                             '__dt.hour, '
